@@ -288,6 +288,21 @@ impl Frame {
 }
 // Game::frame(idx) (impl game::Game for Game) delegates with the start block's version
 impl Game {
+//@fn src/game/immutable.rs | impl game::Game for Game | len | ret=res | twin=__view
+	ensures res == self.frames.id@.len() /*[C13.game_len_is_the_row_count]*/,
+//@end
+//@fn src/game/immutable.rs | impl game::Game for Game | start | ret=res | twin=__view | sigsub=/&Start/&game::Start/
+	ensures *res == self.start /*[C13.game_start_accessor]*/,
+//@end
+//@fn src/game/immutable.rs | impl game::Game for Game | end | ret=res | twin=__view | sigsub=/Option<End>/Option<game::End>/
+	ensures *res == self.end /*[C13.game_end_accessor]*/,
+//@end
+//@fn src/game/immutable.rs | impl game::Game for Game | gecko_codes | ret=res | twin=__view
+	ensures *res == self.gecko_codes /*[C13.game_gecko_accessor]*/,
+//@end
+//@fn src/game/immutable.rs | impl game::Game for Game | metadata | ret=res | twin=__view | sigsub=/Option<Map<String, Value>>/Option<JsMap>/
+	ensures *res == self.metadata /*[C13.game_metadata_accessor]*/,
+//@end
 //@fn src/game/immutable.rs | impl game::Game for Game | frame | ret=res | twin=__view
 	requires frame_wf(&self.frames, ver(self)), idx < self.frames.id@.len(),
 	ensures res.id == self.frames.id.values_spec()[idx as int] /*[C13.game_frame_is_row_idx]*/,
